@@ -90,6 +90,21 @@ CLAIMS: dict = {
              'reported under C11.',
         technique='contract-based deductive verification: flow equivalence by AST-level symbolic execution, SQL->FOL, z3',
         engines=['pyvc', 'sqlvc']),
+    'C14': dict(
+        category='proof',
+        text='Every function of wn/similarity.py is executed symbolically (reals) against the contracts of the taxonomy '
+             'methods (uninterpreted dist/conn/LCS/depth with the C13 facts as ground instances) and of the weight table '
+             '(C15): value = documented formula, symmetry, bounds, self-similarity maximal (path, wup, lch), wn.Error '
+             'exactly for incompatible parts of speech (a = s) / missing common hypernym / max_depth <= 0, no other '
+             'exception - for all graphs and all positive weight tables. The same clauses are run as a bounded stand-in '
+             'on the real functions over every digraph with <= 3 (quick) / 4 (thorough) nodes.',
+        note='A-FLOAT (floats as reals, log strictly increasing), taxonomy contracts = C13, weights contract = C15, A-POS '
+             '(hypernyms share the part of speech up to a/s). Known findings K14 (wup takes the first of an unordered '
+             'list of lowest common hypernyms) and K15 (res uses the least informative one). Fixed finding F6 '
+             '(KeyError for satellite adjectives).',
+        technique='contract-based deductive verification: symbolic execution of the real functions over uninterpreted graph '
+                  'contracts, z3 (reals); bounded stand-in on small digraphs',
+        engines=['pyvc', 'bounded']),
     'C05': dict(
         category='proof',
         text='Decomposition of the history property into per-operation obligations over the real DDL, SQL and '
